@@ -9,7 +9,9 @@ XSD = ref.XSD
 NODES = [["u", "urn:a"], ["u", "urn:b"], ["u", "urn:c"], ["b", "n1"]]
 PREDS = [["u", "urn:p"], ["u", "urn:q"]]
 LITS = [["l", "1", None, ref.INT], ["l", "2", None, ref.INT], ["l", "0", None, ref.INT], ["l", "1.5", None, ref.DEC], ["l", "x", None, None],
-        ["l", "", None, None], ["l", "y", "en", None], ["l", "true", None, ref.BOOL], ["l", "3", None, ref.INT]]
+        ["l", "", None, None], ["l", "y", "en", None], ["l", "true", None, ref.BOOL], ["l", "3", None, ref.INT],
+        # equal in value to LITS[0] but different terms (ties under ORDER BY / "=" that are not ties of identity)
+        ["l", "1.0", None, ref.DEC], ["l", "1.0", None, ref.DBL]]
 VARS = ["a", "b", "c", "d", "e"]
 GRAPHS = [["u", "urn:g1"], ["u", "urn:g2"]]
 
